@@ -50,6 +50,9 @@ func newCluster(n int, genesisForks bool) *cluster {
 	if genesisForks {
 		ck[1] = 1
 		bn = fakebn.NewGenesisForks(4)
+		if n == 4 {
+			bn.SPE = 16 // and, for one cluster size, epochs that are not 32 slots long
+		}
 	}
 	if c, ok := clusterCache[ck]; ok {
 		return c
